@@ -46,6 +46,7 @@ var harnesses = map[string]*harnessConfig{
 
 type family struct {
 	Name     string
+	Harness  string // optional: overrides the property's harness for this family
 	Flags    map[string]string
 	Quick    int
 	Thorough int
@@ -120,13 +121,14 @@ var props = map[string]*propConfig{
 		Families: []family{
 			{Name: "call-failures", Flags: map[string]string{"family": "enum"}, Quick: 500, Thorough: 12000},
 			{Name: "corruption-at-rest", Flags: map[string]string{"family": "corruption"}, Quick: 3000, Thorough: 400000},
+			{Name: "upload-failures", Harness: "h2", Flags: map[string]string{"family": "upload"}, Quick: 240, Thorough: 10000},
 		},
 		QuickBudget: 100 * time.Second, ThoroughBudget: 14 * time.Minute, Chunk: 10,
 		Rule: "call-failures: one seeded workload (1..2 processes x 1..2 threads, first open, increments incl. page growth, optional rotation, optional deletion of files in use, directory found as a regular file) is executed fault-free to count its N file-system/mmap calls, then re-executed once per (call index, errno in ENOENT/EACCES/EROFS/ENOSPC/EIO/EMFILE/EINTR, or short write) [quick: every call with a third of the errnos plus all short writes], once per persistent state (read-only, permission denied, mmap always failing) and for a sample of pairs (thorough: all pairs when N<=60); corruption-at-rest: a valid file built by the independent encoder is damaged (random bytes, truncation classes, header length, limit, bucket heads, name lengths, next links incl. self-loops, longer cycles and cross-chain links, for plain and ditto-compressed stack names) and then opened and incremented by the library; evaluations = executions; distinct = distinct event-log hash of the last execution of each workload; non-trivial = a fault fired or the file was damaged",
 		Real: []string{"internal/counter", "internal/mmap", "internal/telemetry", "Linux tmpfs / mmap"},
 		Stub: []string{"failing calls are injected by the file-system shim instead of being performed", "Go scheduler", "wall clock"},
 		Assumptions: []string{
-			"upload-side failures (upload.Run) are covered by the machine-world harness when it is claimed; this check covers opening, mapping, extending, rotating and incrementing",
+			"upload-failures family (machine world): one upload.Run over a directory of counter files (some damaged at rest), left-over and malformed reports, the directory found missing / as a regular file / with a debug directory, every single file-system call failing with each errno or a short write, persistent read-only / permission-denied / unreadable states, server failures and a sample of pairs; oracle: Run returns, no panic escapes, step budget, no report holds a value above the true sum of its week's files",
 			"a recorded allocation limit far beyond the file size (which makes the library create a sparse file of that size) is not generated for the library consumer: its chain walks are bounded but too long to simulate",
 			"truncation of a file that is currently mapped is outside the property's quantifier and is not injected",
 		},
@@ -149,12 +151,13 @@ var props = map[string]*propConfig{
 		Harness: "h1", Level: "exploration",
 		Families: []family{
 			{Name: "counter-side", Flags: map[string]string{"family": "counter"}, Quick: 4000, Thorough: 500000},
+			{Name: "uploader-side", Harness: "h2", Flags: map[string]string{"family": "uploader"}, Quick: 2400, Thorough: 250000},
 		},
 		QuickBudget: 90 * time.Second, ThoroughBudget: 20 * time.Minute, Chunk: 100,
 		Rule:        "one run = a rotating process on a simulated calendar (instants 1990..2060 biased to 23:59:59 / 00:00:00, month, year and leap boundaries, and to the last 90 s of a day), week-end setting valid 0..6 / missing / empty / garbage, 1..3 phases of concurrent increments during which the clock jumps to end-1ns, end, end+1ns, hours or weeks later; the real rotate re-arms itself through the simulated AfterFunc; checked: begin/end/name of every file created against refcal, old files frozen once a rotation completed, rotation liveness after the clock stops, conservation; distinct = distinct event-log hash",
 		Real:        []string{"internal/counter (rotate, rotate1, counterSpan, weekEnd)", "internal/telemetry"},
 		Stub:        []string{"clock and AfterFunc simulated", "Go scheduler"},
-		Assumptions: []string{"uploader side of C09 (expiry test and week naming) is checked in the machine-world harness when claimed", "UTC only, as the code"},
+		Assumptions: []string{"uploader-side family (machine world): the run's start time is placed at end-1ns, end, end+1ns and later relative to the recorded end of a counter file on a 1990..2060 calendar; a file is consumed iff its end is before the start time and is reported under the week named by its end date (the C07 oracle with that start time), files not consumed receive no mutating call", "UTC only, as the code"},
 		Probes:      []string{"rotation-completed", "jump-kind-0", "jump-kind-1", "jump-kind-2"},
 	},
 	"C07": {
